@@ -107,12 +107,27 @@ func (sg *segmentTimelineGenerator) generateSegmentTimelineNrMPD(log *slog.Logge
 	manifest := mpd.Clone(ch.mpd)
 	startTime := ch.startTime
 	ch.mpdMu.Unlock()
+	// A track that has registered with its init segment but not yet delivered media is not counted in the
+	// range above, so it has none of the listed segments: its Representation is left out until it has.
+	delivering := manifest.Periods[0].AdaptationSets[:0]
 	for _, as := range manifest.Periods[0].AdaptationSets {
+		reps := as.Representations[:0]
+		for _, rep := range as.Representations {
+			if sg.segDataBuffers[rep.Id].nrItems() > 0 {
+				reps = append(reps, rep)
+			}
+		}
+		as.Representations = reps
+		if len(reps) == 0 {
+			continue
+		}
 		err := sg.modifySegmentTemplate(as, ch, firstNr, lastNr)
 		if err != nil {
 			return err
 		}
+		delivering = append(delivering, as)
 	}
+	manifest.Periods[0].AdaptationSets = delivering
 	sg.latestSeqNr = lastNr
 	tmpFile := filepath.Join(ch.dir, timelineNrMPD+".tmp")
 	ofh, err := os.Create(tmpFile)
